@@ -915,10 +915,20 @@ func VH_ClientManyNoWait() {
 	}
 	vAssert(len(s.reqs) == n, "C16/exactly-one-request")
 	anyErr := false
-	for _, rq := range s.reqs {
+	for i, rq := range s.reqs {
 		vAssert(rq.typ == vUAPI_AUDIT_SET, "C16/set-request-type")
 		vAssert(rq.flags == vNLM_F_REQUEST|vNLM_F_ACK, "C16/set-request-flags")
 		vAssert(len(rq.data) == 4*vStatusWords, "C16/set-payload-size")
+		// the whole payload: this call's mask bit and value, every other field zero (nothing of the
+		// earlier calls is left in it)
+		switch i % 3 {
+		case 0:
+			vCheckSetRequest(rq, vUAPI_STATUS_ENABLED, 1, uint32(vIf(i%2 == 0, 1, 0)))
+		case 1:
+			vCheckSetRequest(rq, vUAPI_STATUS_RATE_LIMIT, 4, uint32(i))
+		case 2:
+			vCheckSetRequest(rq, vUAPI_STATUS_BACKLOG_LIMIT, 5, uint32(1000+i))
+		}
 		anyErr = vOr(anyErr, rq.errno != 0)
 	}
 	if anyErr {
